@@ -24,6 +24,10 @@ def expected_shapes():
                     f"Subscript(value={env}, slice=Call(func=Name(id='str', ctx=Load), args=[<E:Name>*], {KW}), ctx=Load)"),
         "${expr} (target)": ("Parser.expand_env_expr", [probe.node("Name", "E")], {"ctx": Ctx("Store")},
                              f"Subscript(value={env}, slice=Call(func=Name(id='str', ctx=Load), args=[<E:Name>*], {KW}), ctx=Store)"),
+        "${literal}": ("Parser.expand_env_expr", [probe.node("Constant", "E")], {},
+                       f"Subscript(value={env}, slice=Call(func=Name(id='str', ctx=Load), args=[<E:Constant>*], {KW}), ctx=Load)"),
+        "${tuple}": ("Parser.expand_env_expr", [probe.node("Tuple", "E")], {},
+                     f"Subscript(value={env}, slice=Call(func=Name(id='str', ctx=Load), args=[<E:Tuple>*], {KW}), ctx=Load)"),
         "`path`": ("Parser.expand_search_path", [probe.tok("P", "SEARCH_PATH")], {},
                    f"Call(func={X('pathsearch')}, args=[Constant(value=<P.string>)*], {KW})"),
         "NAME?": ("Parser.expand_help", [ListV(TupleV((probe.node("Name", "A"), probe.tok("Q", "lit:?"))), True)], {},
@@ -231,6 +235,21 @@ def rule_h4(chk: Check, ir):
                 f"$NAME and ${{expr}} must both be offered as binding targets with ctx=Store (found {sorted(stores)})")
     # and the rule offering them is reachable from star_target-like positions: it must be referenced by a rule used in Assign.targets
     chk.units["store_target_alternatives"] = [k for _, _, k in stores]
+    # sibling agreement: the Load form and the Store form of one construct consume the same items (`${` KEY `}` must parse KEY
+    # with the same rule in both, else `${a, b}` or `${k := 'X'}` is a target but not a value)
+    forms: dict[str, dict[str, set]] = {}
+    for r, k, a in actions.all_alts(ir.rules):
+        if a.action is None:
+            continue
+        for n in ast.walk(a.action):
+            if isinstance(n, ast.Call) and isinstance(n.func, ast.Attribute) and n.func.attr in ("expand_env_name", "expand_env_expr"):
+                ctx = "Store" if any(kw.arg == "ctx" and norm_stmt(kw.value) == "Store" for kw in n.keywords) else "Load"
+                forms.setdefault(n.func.attr, {}).setdefault(ctx, set()).add(tuple(str(ni.item) for ni in a.items))
+    for h, by in sorted(forms.items()):
+        chk.count("H4-binding-targets")
+        chk.require(by.get("Load") == by.get("Store"), "H4-binding-targets", f"{h}:load-store-siblings", repo.PARSER_X,
+                    f"the value form and the target form of this construct consume different items: Load {sorted(by.get('Load', []))}, "
+                    f"Store {sorted(by.get('Store', []))}")
 
 
 def run(chk: Check):
